@@ -679,6 +679,20 @@ fn crash_child(args: &[String]) -> i32 {
 // concurrent: readers / iterator / writer on other threads with a map resize in flight, every
 // schedule up to the preemption bound under the controlled scheduler (src/sched.rs)
 
+/// A value whose decoding - which `Store::get_ser` runs inside its LMDB read transaction - contains a scheduling
+/// point: the reading thread can be paused with its transaction open.
+struct SlowVal(Vec<u8>);
+impl Readable for SlowVal {
+	fn read<R: Reader>(reader: &mut R) -> Result<SlowVal, ser::Error> {
+		use std::sync::atomic::Ordering::SeqCst;
+		crate::sched::OPEN_READS.fetch_add(1, SeqCst);
+		grin_util::verif::sched_point("in-read");
+		let v = Val::read(reader);
+		crate::sched::OPEN_READS.fetch_sub(1, SeqCst);
+		v.map(|v| SlowVal(v.0))
+	}
+}
+
 #[derive(Clone, Debug)]
 struct CObs {
 	thread: String,
@@ -692,7 +706,16 @@ fn conc_execute(base: &Path, sc: &uni::Scratch, choices: &[usize], fill: u32, va
 	uni::copy_dir(base, &d);
 	let store = Arc::new(open_store(&d));
 	let log: Arc<Mutex<Vec<CObs>>> = Arc::new(Mutex::new(vec![]));
-	let names: Vec<&str> = if variant == 0 { vec!["reader-iter", "writer", "reader-get"] } else { vec!["reader-writes", "writer-large"] };
+	let names: Vec<&str> = match variant {
+		0 => vec!["reader-iter", "writer", "reader-get"],
+		1 => vec!["reader-writes", "writer-large"],
+		2 => vec!["reader-slow", "writer"],
+		_ => vec!["reader-a", "reader-b", "writer"],
+	};
+	crate::sched::OPEN_READS.store(0, std::sync::atomic::Ordering::SeqCst);
+	crate::sched::RESIZE_UNDER_READ.store(0, std::sync::atomic::Ordering::SeqCst);
+	// variant 3: the accesses to the atomics of the store's resize gate are scheduling points too
+	grin_util::verif::set_atomic_points(variant == 3);
 	let sched = crate::sched::Scheduler::new(&names, choices.to_vec());
 	let mut bodies: Vec<Box<dyn FnOnce() + Send>> = vec![];
 	if variant == 1 {
@@ -740,6 +763,41 @@ fn conc_execute(base: &Path, sc: &uni::Scratch, choices: &[usize], fill: u32, va
 				push(format!("batch of 3 x 48 KiB + pair -> {:?}", r.as_ref().map_err(|e| format!("{:?}", e))), r.is_ok());
 			}));
 		}
+	}
+	if variant == 2 {
+		// a point read whose transaction is open while the thread is paused (inside the value's decoder)
+		let st = store.clone();
+		let lg = log.clone();
+		bodies.push(Box::new(move || {
+			let g = st.get_ser::<SlowVal>(None, &3u32.to_be_bytes(), None);
+			let want = big(3).0;
+			let ok = matches!(&g, Ok(Some(v)) if v.0 == want);
+			lg.lock().unwrap().push(CObs { thread: "reader-slow".into(), what: format!("get_ser (paused inside its read transaction) -> {}", match &g { Ok(Some(v)) => format!("{} bytes{}", v.0.len(), if v.0 == want { "" } else { ", NOT the stored value" }), Ok(None) => "None".into(), Err(e) => format!("{:?}", e) }), ok });
+		}));
+	}
+	if variant == 3 {
+		// two threads whose short read transactions end at the same time
+		for (name, k) in [("reader-a", 0u32), ("reader-b", 1u32)] {
+			let st = store.clone();
+			let lg = log.clone();
+			bodies.push(Box::new(move || {
+				let e = st.exists(None, &k.to_be_bytes());
+				lg.lock().unwrap().push(CObs { thread: name.into(), what: format!("exists -> {:?}", e.as_ref().map_err(|e| format!("{:?}", e))), ok: matches!(e, Ok(true)) });
+			}));
+		}
+	}
+	if variant == 2 || variant == 3 {
+		// a batch that needs the map enlarged
+		let st = store.clone();
+		let lg = log.clone();
+		bodies.push(Box::new(move || {
+			let r = st.batch().and_then(|mut b| {
+				b.put_ser(None, b"pair-a", &big(200))?;
+				b.put_ser(None, b"pair-b", &val(5))?;
+				b.commit()
+			});
+			lg.lock().unwrap().push(CObs { thread: "writer".into(), what: format!("batch put/put/commit -> {:?}", r.as_ref().map_err(|e| format!("{:?}", e))), ok: r.is_ok() });
+		}));
 	}
 	if variant == 0 {
 	{
@@ -806,7 +864,12 @@ fn conc_execute(base: &Path, sc: &uni::Scratch, choices: &[usize], fill: u32, va
 	}
 	}
 	let (verdict, trace, panics) = sched.run(bodies);
-	let obs = log.lock().unwrap().clone();
+	grin_util::verif::set_atomic_points(false);
+	let mut obs = log.lock().unwrap().clone();
+	let under = crate::sched::RESIZE_UNDER_READ.load(std::sync::atomic::Ordering::SeqCst);
+	if under > 0 {
+		obs.push(CObs { thread: "store".into(), what: format!("map-resized-under-open-read-transaction: the memory map was enlarged {} time(s) while a get_ser of another thread had its read transaction open", under), ok: false });
+	}
 	let mut final_ok = true;
 	if matches!(verdict, crate::sched::Verdict::Completed) {
 		// afterwards: nothing committed is lost
@@ -822,7 +885,7 @@ fn conc_execute(base: &Path, sc: &uni::Scratch, choices: &[usize], fill: u32, va
 		if a != b {
 			final_ok = false;
 		}
-		if variant == 0 && told_ok("writer", "batch put/put/commit") && !(a && b) {
+		if (variant == 0 || variant >= 2) && told_ok("writer", "batch put/put/commit") && !(a && b) {
 			final_ok = false;
 		}
 		if variant == 1 {
@@ -907,8 +970,8 @@ fn concurrent(tier: Tier, shard: usize, n: usize) -> Report {
 	}
 	let cap = tier.pick(3_000u64, 60_000);
 	let mut with_resize = 0u64;
-	for variant in [0u8, 1u8] {
-	let vname = if variant == 0 { "concurrent" } else { "concurrent2" };
+	for variant in [0u8, 1u8, 2u8, 3u8] {
+	let vname = ["concurrent", "concurrent2", "concurrent3", "concurrent4"][variant as usize];
 	let mut stack: Vec<Vec<usize>> = vec![vec![]];
 	let mut top = 0usize;
 	let mut done_here = 0u64;
@@ -943,6 +1006,10 @@ fn concurrent(tier: Tier, shard: usize, n: usize) -> Report {
 				rep.violation(format!("{}:livelock", vname), format!("threads wait for each other forever: {}", m), case.clone());
 				break;
 			}
+			crate::sched::Verdict::Unsafe(m) => {
+				rep.violation(format!("{}:map-resized-under-open-read-transaction", vname), m.clone(), case.clone());
+				break;
+			}
 			crate::sched::Verdict::Divergence(m) | crate::sched::Verdict::Stuck(m) => {
 				eprintln!("MACHINERY: C18 concurrent: {}", m);
 				std::process::exit(2);
@@ -971,7 +1038,8 @@ fn concurrent(tier: Tier, shard: usize, n: usize) -> Report {
 					continue;
 				}
 				let extra = p.running.map(|r| (p.enabled.contains(&r) && p.enabled[alt] != r) as usize).unwrap_or(0);
-				if cost + extra > bound {
+				// the gate's lost-update window needs two readers overlapping twice: two preemptions, in both tiers
+				if cost + extra > if variant == 3 { bound.max(2) } else { bound } {
 					continue;
 				}
 				if prefix.is_empty() {
